@@ -2,6 +2,8 @@
 
 Runs under python3-vt (z3 available).  Nothing here imports the library under test.
 """
+import os
+import sys
 import time
 import z3
 
@@ -514,9 +516,7 @@ class SymInt(object):
             raise OverflowError("int too big to convert")
         items = []
         if self.lia:
-            for i in range(length):
-                b = (self // (1 << (8 * i))) % 256
-                items.append(b)
+            items = lia_digits(self, 256, length) if length else []
         else:
             e = self.tw(8 * length) if length else None
             for i in range(length):
@@ -665,7 +665,6 @@ def _divmod(a, b):
         bl = _lo(b)
         if bl is None or bl <= 0:
             raise EngineLeak("LIA division by a divisor not known positive")
-        ea, eb = _lia(a), _lia(b)
         al, ah, bh = _lo(a), _hi(a), _hi(b)
         if not isinstance(b, SymInt):
             qlo = None if al is None else al // b
@@ -676,6 +675,37 @@ def _divmod(a, b):
                 m = max(abs(al), abs(ah))
                 qlo, qhi = (0 if al >= 0 else -m), m
         rhi = None if bh is None else bh - 1
+        if not isinstance(b, SymInt):
+            ex = cur()
+            ea = _lia(a)
+            known = find_repr(ea, b, al, ah) if b > 2 else None
+            if known is not None:
+                # theory lemma: equal numbers have equal digits
+                if len(known) == 0:
+                    return (0, 0)
+                tail = known[1:]
+                q = 0
+                for i, d in enumerate(tail):
+                    q = q + d * (b ** i)
+                if isinstance(q, SymInt):
+                    ex.path_state.setdefault('reprs', []).append((q.e, b, tail, q.lo, q.hi))
+                return (q, known[0])
+            # fresh quotient / remainder with the linear definition  a = b*q + r, 0 <= r < b
+            key = ('divmod', ea.get_id(), b)
+            hit = ex.path_state.get(key)
+            if hit is None:
+                q = z3.Int(ex.fresh_name('q'))
+                r = z3.Int(ex.fresh_name('r'))
+                ex.add(z3.And(ea == b * q + r, r >= 0, r < b))
+                if qlo is not None:
+                    ex.add(q >= qlo)
+                if qhi is not None:
+                    ex.add(q <= qhi)
+                ex.model = None
+                hit = (q, r, ea)
+                ex.path_state[key] = hit
+            return (SymInt(hit[0], qlo, qhi, None), SymInt(hit[1], 0, rhi, None))
+        ea, eb = _lia(a), _lia(b)
         return (SymInt(ea / eb, qlo, qhi, None), SymInt(ea % eb, 0, rhi, None))
     al, ah, bl, bh = _lo(a), _hi(a), _lo(b), _hi(b)
     if al >= 0 and bl > 0:
@@ -779,9 +809,30 @@ def _bitop(op, a, b):
     return SymInt.from_bv(e, lo, hi, True)
 
 
+def _tbl(x):
+    t = x.tag if isinstance(x, SymInt) else None
+    if t is not None and t[0] == 'tbl' and len(set(t[1])) == len(t[1]):
+        return t
+    return None
+
+
 def _cmp(op, a, b):
     if not isinstance(a, SymInt) and not isinstance(b, SymInt):
         return {'==': a == b, '!=': a != b, '<': a < b, '<=': a <= b}[op]
+    if op in ('==', '!='):
+        # characters selected from an injective table compare like their indices
+        ta, tb = _tbl(a), _tbl(b)
+        r = None
+        if ta is not None and tb is not None and ta[1] == tb[1]:
+            r = _cmp('==', ta[2], tb[2])
+        elif ta is not None and not isinstance(b, SymInt):
+            k = ta[1].find(chr(b)) if 0 <= b < 0x110000 else -1
+            r = False if k < 0 else _cmp('==', ta[2], k)
+        elif tb is not None and not isinstance(a, SymInt):
+            k = tb[1].find(chr(a)) if 0 <= a < 0x110000 else -1
+            r = False if k < 0 else _cmp('==', tb[2], k)
+        if r is not None:
+            return r if op == '==' else s_not(r)
     al, ah, bl, bh = _lo(a), _hi(a), _lo(b), _hi(b)
     if None not in (al, ah, bl, bh):
         if op == '<':
@@ -808,6 +859,85 @@ def _cmp(op, a, b):
     if op == '<':
         return mkbool(ea < eb)
     return mkbool(ea <= eb)
+
+
+def register_repr(value, base, digits_le):
+    """record that `value` (LIA SymInt) equals sum digits_le[i]*base^i with every digit in [0, base).
+    Used as a theory lemma (uniqueness of positional representation) by lia_digits/_divmod."""
+    if not isinstance(value, SymInt) or not value.lia:
+        return
+    for d in digits_le:
+        lo, hi = (d.lo, d.hi) if isinstance(d, SymInt) else (d, d)
+        if lo is None or hi is None or lo < 0 or hi >= base:
+            return
+    ex = cur()
+    ex.path_state.setdefault('reprs', []).append((value.e, base, list(digits_le), value.lo, value.hi))
+
+
+def find_repr(xe, base, lo=None, hi=None):
+    """digits (little-endian) of the LIA term xe in `base`, if the path condition entails equality with a registered
+    positional representation (decided by the solver)"""
+    ex = cur()
+    reg = ex.path_state.get('reprs')
+    if not reg:
+        return None
+    cache = ex.path_state.setdefault('repr_cache', {})
+    if hi is not None and hi < base * base:
+        return None
+    for (ye, b, ds, ylo, yhi) in reg:
+        if not (b == base or (b, base) in ((256, 16), (16, 256))):
+            continue
+        if lo is not None and yhi is not None and lo > yhi:
+            continue
+        if hi is not None and ylo is not None and hi < ylo:
+            continue
+        key = (xe.get_id(), ye.get_id())
+        hit = cache.get(key)
+        if hit is None:
+            if xe.get_id() == ye.get_id():
+                hit = True
+            else:
+                hit = ex.entails_linear(xe == ye)
+            cache[key] = hit
+        if hit:
+            if b == base:
+                return ds
+            if b == 256 and base == 16:
+                out = []
+                for d in ds:
+                    if isinstance(d, SymInt):
+                        q, r = _divmod(d, 16)
+                        out.extend([r, q])
+                    else:
+                        out.extend([d % 16, d // 16])
+                return out
+            if b == 16 and base == 256:
+                dd = list(ds) + ([0] if len(ds) % 2 else [])
+                return [dd[i] + 16 * dd[i + 1] for i in range(0, len(dd), 2)]
+    return None
+
+
+def lia_digits(x, base, k):
+    """little-endian base-`base` digits d_0..d_{k-1} of a non-negative LIA int x (fresh variables with the linear
+    definition  x = sum d_i base^i + base^k * rest,  0 <= d_i < base, rest >= 0).  Memoised per path."""
+    ex = cur()
+    known = find_repr(x.e, base, x.lo, x.hi)
+    if known is not None:
+        return (list(known) + [0] * k)[:k]
+    key = ('digits', x.e.get_id(), base)
+    hit = ex.path_state.get(key)
+    if hit is None or len(hit[0]) < k:
+        ds = [z3.Int(ex.fresh_name('dg')) for _ in range(k)]
+        rest = z3.Int(ex.fresh_name('rest'))
+        tot = rest * (base ** k)
+        for i, d in enumerate(ds):
+            tot = tot + d * (base ** i)
+            ex.add(z3.And(d >= 0, d < base))
+        ex.add(z3.And(x.e == tot, rest >= 0))
+        ex.model = None
+        hit = (ds, x.e)
+        ex.path_state[key] = hit
+    return [SymInt(d, 0, base - 1, None) for d in hit[0][:k]]
 
 
 def vint(x=0, base=None):
@@ -922,12 +1052,20 @@ class Explorer(object):
                         s2.add(extra)
                     self.stats.queries += 1
                     self.stats.fallback_queries += 1
+                    if os.environ.get('SYMX_DUMP'):
+                        with open(os.path.join(os.environ['SYMX_DUMP'], 'q%d.smt2' % self.stats.queries), 'w') as f:
+                            f.write(s2.to_smt2())
                     r = s2.check()
                     m = s2.model() if r == z3.sat else None
                     if r == z3.unknown:
                         raise Inconclusive("solver returned unknown (%s)" % s2.reason_unknown())
         finally:
-            self.stats.solver_s += time.time() - t
+            dt = time.time() - t
+            self.stats.solver_s += dt
+            if dt > 1.0 and os.environ.get('SYMX_TRACE'):
+                import traceback
+                fr = [f for f in traceback.extract_stack()[:-1] if 'symx/core.py' not in f.filename][-3:]
+                sys.stderr.write('SLOWQ %.1fs %s\n' % (dt, ' <- '.join('%s:%d' % (os.path.basename(f.filename), f.lineno) for f in reversed(fr))))
         self._last_model = m
         return r
 
@@ -983,6 +1121,24 @@ class Explorer(object):
         if r != z3.sat:
             raise Inconclusive("could not rebuild a z3 model from cvc5 values (%s)" % r)
         return z3.sat, s3.model()
+
+    def entails_linear(self, goal):
+        """sound, incomplete: does the purely linear-arithmetic part of the path condition entail `goal`?
+        (fresh solver over the assertions that contain no if-then-else / bit-vector / uninterpreted terms)"""
+        t = time.time()
+        s2 = z3.SolverFor('QF_LIA')
+        s2.set('timeout', min(self.query_timeout_ms, 30000))
+        for a in self.solver.assertions():
+            if _pure_lia(a):
+                s2.add(a)
+        s2.add(z3.Not(goal))
+        r = s2.check()
+        self.stats.queries += 1
+        dt = time.time() - t
+        self.stats.solver_s += dt
+        if dt > 1.0 and os.environ.get('SYMX_TRACE'):
+            sys.stderr.write('SLOWQ(entails_linear) %.1fs %s\n' % (dt, r))
+        return r == z3.unsat
 
     def get_model(self):
         if self.model is None:
@@ -1186,6 +1342,38 @@ class Explorer(object):
                     self.witnesses.append(self._model_inputs(self.get_model()))
                 except PathAbort:
                     pass
+
+
+_pl_cache = {}
+
+
+def _pure_lia(e):
+    i = e.get_id()
+    r = _pl_cache.get(i)
+    if r is not None:
+        return r[0]
+    ok = True
+    todo = [e]
+    seen = set()
+    while todo:
+        t = todo.pop()
+        j = t.get_id()
+        if j in seen:
+            continue
+        seen.add(j)
+        if z3.is_bv(t) or z3.is_fp(t):
+            ok = False
+            break
+        if z3.is_app(t):
+            k = t.decl().kind()
+            if k == z3.Z3_OP_ITE or (k == z3.Z3_OP_UNINTERPRETED and t.num_args() > 0):
+                ok = False
+                break
+            todo.extend(t.children())
+    if len(_pl_cache) > 200000:
+        _pl_cache.clear()
+    _pl_cache[i] = (ok, e)
+    return ok
 
 
 def _collect_consts(e, acc):
